@@ -273,7 +273,37 @@ def t11_base128(run, fx, floors):
         run.ok("T11-B128", "range 0..5, shift 7, masks {0xFE000000,0x7F,0x80}, leading-zero test 0x80")
 
 
+def t11_hmtx(run, fx):
+    import sym
+    rule = "T11-HMTX"
+    run.rule(rule, "transformed hmtx flags (WOFF2 section 5.4): bit 0 = lsb[] of the proportional glyphs is absent, bit 1 = leftSideBearing[] of the "
+                   "monospaced glyphs is absent; each presence predicate tests its own flag constant against empty()")
+    want = {"lsb_is_present": ("woff2::HmtxTableFlag::LSB_ABSENT", 1), "left_side_bearing_is_present": ("woff2::HmtxTableFlag::LEFT_SIDE_BEARING_ABSENT", 2)}
+    for fn, (cpath, bit) in sorted(want.items()):
+        b = fx.body("woff2::HmtxTableFlag::" + fn)
+        if b is None:
+            run.anchor_missing(rule, "woff2::HmtxTableFlag::" + fn)
+            continue
+        consts = []
+        for bi, t in b.calls():
+            for a in t["args"]:
+                if a["k"] == "const" and a.get("uneval"):
+                    consts.append(a["uneval"])
+        c = fx.const(cpath)
+        val = None
+        if c is not None:
+            val = c.get("val")
+            if val is None and c.get("bytes"):
+                val = int(c["bytes"][:2], 16)
+        if consts == [cpath] and val == bit:
+            run.ok(rule, "%s tests %s (= %d)" % (fn, cpath.split("::")[-1], bit))
+        else:
+            run.fail(rule, "hmtx-flag:%s" % fn, "%s tests %s (value %s); expected %s = %d" % (fn, consts, val, cpath.split("::")[-1], bit), "%s:%s" % (b.file, b.line))
+
+
 def check(run, fx, tier, floors=True):
+    if floors or fx.body("woff2::HmtxTableFlag::lsb_is_present") is not None:
+        t11_hmtx(run, fx)
     t11_lut(run, fx, floors)
     t11_tags(run, fx, floors)
     t11_packed(run, fx, floors)
